@@ -118,8 +118,32 @@ def table():
         print('| %s/%s | %s | %s | %s |' % r)
 
 
+def adopt(dirs):
+    """copy confirmed candidates into /verif/seeded/<property>/<k>/"""
+    for d in dirs:
+        d = os.path.abspath(d)
+        cf = os.path.join(d, 'confirm.json')
+        if not os.path.exists(cf):
+            print('skip (not confirmed yet):', d)
+            continue
+        c = json.load(open(cf))
+        if not (c.get('applies') and c.get('demo_differs') and c.get('tests_pass') and not c.get('touches_tests')):
+            print('REJECTED', d, {k: c.get(k) for k in ('applies', 'demo_differs', 'tests_pass', 'touches_tests', 'error')})
+            continue
+        meta = json.load(open(os.path.join(d, 'meta.json')))
+        dest = os.path.join(VERIF, 'seeded', meta['property'], os.path.basename(d))
+        os.makedirs(dest, exist_ok=True)
+        for f in ('patch.diff', 'demo.py', 'demo_before.txt', 'demo_after.txt', 'meta.json', 'confirm.json', 'result.json'):
+            if os.path.exists(os.path.join(d, f)):
+                shutil.copy(os.path.join(d, f), os.path.join(dest, f))
+        print('adopted', dest)
+
+
 if __name__ == '__main__':
     cmd = sys.argv[1]
+    if cmd == 'adopt':
+        adopt(sys.argv[2:])
+        sys.exit(0)
     if cmd == 'confirm':
         from concurrent.futures import ThreadPoolExecutor
         with ThreadPoolExecutor(max_workers=4) as ex:
